@@ -17,20 +17,42 @@ impl Driver for Idler {
     fn ext_enabled(&self, w: &World) -> Vec<(Ev, u32)> {
         let quiet = w.inflight.is_empty() && w.nodes.iter().all(|n| n.way_queries.is_empty() && n.inbound.is_empty()) && w.earliest_deadline().is_none();
         let idles = w.scratch.iter().filter(|(k, _)| k == "idle").count();
+        let mut out = vec![];
         if quiet && idles < self.max_idles && w.submitted.iter().any(|s| *s) && w.submitted.iter().any(|s| !*s) {
-            vec![(Ev::Ext(99), 0), (Ev::Ext(101), 0)]
-        } else {
-            vec![]
+            out.push((Ev::Ext(99), 0));
+            out.push((Ev::Ext(101), 0));
         }
+        // noise: a message packet that claims to come from a peer node 0 holds a session with,
+        // from that peer's address, whose body is too short to be anything (at most once per idle
+        // period taken): it is not a use of the session
+        let noises = w.scratch.iter().filter(|(k, _)| k == "noise").count();
+        if quiet && idles > 0 && noises < idles && w.snap(0).map(|s| !s.sessions.is_empty()).unwrap_or(false) {
+            out.push((Ev::Ext(7), 0));
+        }
+        out
     }
     fn ext_step<'a>(&'a self, w: &'a mut World, code: u32) -> std::pin::Pin<Box<dyn std::future::Future<Output = ()> + 'a>> {
         Box::pin(async move {
+            if code == 7 {
+                w.scratch.push(("noise".into(), vec![]));
+                // the most recently used session's peer
+                if let Some(peer) = w.snap(0).and_then(|s| s.sessions.last().map(|x| x.addr.clone())) {
+                    let mut nonce = [0u8; 12];
+                    nonce[0] = 0xEE;
+                    nonce[11] = w.scratch.len() as u8;
+                    let p = discv5::verif::VPacket { iv: 77, message_nonce: nonce, kind: discv5::packet::PacketKind::Message { src_id: peer.node_id }, message: vec![0x55; 5] };
+                    let bytes = p.encode(&w.nodes[0].id);
+                    w.log_mark = w.log.len();
+                    w.deliver_raw(0, peer.socket_addr, &bytes, 0, nonce, -1).await;
+                }
+                return;
+            }
             w.scratch.push(("idle".into(), vec![code as u8]));
             w.advance_through(Duration::from_secs(code as u64)).await;
         })
     }
     fn fingerprint_extra(&self, w: &World) -> u128 {
-        mc::fp_of(&w.scratch.iter().filter(|(k, _)| k == "idle").count())
+        mc::fp_of(&(w.scratch.iter().filter(|(k, _)| k == "idle").count(), w.scratch.iter().filter(|(k, _)| k == "noise").count()))
     }
 }
 
